@@ -103,6 +103,13 @@ theorem stepB_inv (s : BState) (op : BOp) (h : BInv s) : BInv (stepB s op) := by
   | enqueue =>
     simp only [stepB, enqueue]
     exact ⟨fun snap hsn => (by simp only [Option.some.injEq] at hsn; exact hsn.symm), fun hn => (by cases hn)⟩
+  | remove i =>
+    simp only [stepB, removeAsync]
+    cases hl : s.ls[i]? with
+    | none => simp only; exact ⟨hp, hs⟩
+    | some l =>
+      simp only
+      exact ⟨fun snap hsn => (by simp only [Option.some.injEq] at hsn; exact hsn.symm), fun hn => (by cases hn)⟩
   | loop =>
     simp only [stepB, drain]
     cases hpe : s.pending with
